@@ -144,7 +144,7 @@ impl V {
                     self.expr(a);
                 }
             }
-            Expr::MethodCall(o, _, args, _) => {
+            Expr::MethodCall(o, _, args, _, _) => {
                 self.expr(o);
                 for a in args {
                     self.expr(a);
